@@ -1046,6 +1046,32 @@ func main() {
 				findItems(dd, ps, "rejoined")
 			}
 		}
+	case "slow-replica":
+		// one replica applies late (a slow disk): writes acknowledged through the others are followed at once by
+		// operations on the same id through the slow one.  Raft orders them after the insert; an answer taken
+		// from the slow replica's own, lagging copy would be wrong
+		c.kill()
+		c.start("VERIF_APPLY_DELAY_MS=70")
+		observe(ps, "restart")
+		ds := createDesc(a, 3, 3, 3, pb.Space_Euclidean)
+		observe(ps, "create")
+		if ds == "" {
+			break
+		}
+		time.Sleep(1500 * time.Millisecond)
+		for k := 1; k <= 12; k++ {
+			writeItemN(ds, "insert", ps[k%2], k, 1)
+			switch k % 3 {
+			case 0:
+				writeItemN(ds, "update", c, k, 1)
+			case 1:
+				writeItemN(ds, "remove", c, k, 1)
+			default:
+				writeItemN(ds, "update", c, k, 1)
+				writeItemN(ds, "remove", ps[k%2], k, 1)
+			}
+		}
+		findItems(ds, ps, "writes")
 	case "leave":
 		ctx, cancel := context.WithTimeout(context.Background(), 5*time.Second)
 		_, err := pb.NewNodesManagerClient(a.conn).RemoveNode(ctx, &pb.Node{Id: 3})
